@@ -23,6 +23,9 @@ func TestVerifC04Dedup(t *testing.T) {
 	defer be.srv.Close()
 	*proxy = "http://verif-proxy.invalid/"
 	*host = be.host()
+	savedPT := *proxyTimeout
+	*proxyTimeout = 150 * time.Millisecond // (the timeout of a call to the proxy; the harness's own client does not use it)
+	defer func() { *proxyTimeout = savedPT }()
 	hp, err := hostProxy(context.Background(), *host, "", false, false)
 	if err != nil {
 		t.Fatal(err)
@@ -31,6 +34,7 @@ func TestVerifC04Dedup(t *testing.T) {
 		name    string
 		lists   [][]string
 		scripts map[string][]int
+		delays  []int            // milliseconds the proxy takes to answer list call i
 		ups     map[string][]int // outcome of successive response-upload attempts per ID
 		sizes   map[string]int   // response size per ID (default 10)
 	}
@@ -111,6 +115,9 @@ func TestVerifC04Dedup(t *testing.T) {
 		l = append(l, []string{"h8-long"})
 		hs = append(hs, hist{name: "relisted-while-1100-pass", lists: l})
 	}
+	// re-listings spread over time (far longer than -proxy-timeout, set to 150 ms for this test): the window is about
+	// how many other IDs have been seen since, not about how long ago
+	hs = append(hs, hist{name: "relisted-after-pauses", lists: mk("h9", []int{1, 2}, []int{1}, []int{2, 1}, []int{1, 2, 3}), delays: []int{0, 400, 400, 400}})
 	// response-upload failures after the backend has already executed the request: transport errors and 5xx,
 	// as many as the upload retries absorb and more, small responses and ones beyond the replay buffer
 	{
@@ -175,6 +182,7 @@ func TestVerifC04Dedup(t *testing.T) {
 			defer func() { <-sem }()
 			fp := newVerifFakeProxy()
 			fp.lists = h.lists
+			fp.listDelay = h.delays
 			ids := map[string]bool{}
 			for _, l := range h.lists {
 				for _, id := range l {
